@@ -274,7 +274,7 @@ fn mutate(rng: &mut Rng, m: &MHubMsg, kind: &str) -> Vec<u8> {
 }
 
 pub fn run(ctx: &Ctx, rep: &mut Report) {
-    let total = ctx.universes(640, 60000);
+    let total = ctx.universes(5120, 400000);
     let per_universe = 100;
     for uni in ctx.my_universes(total) {
         let mut rng = ctx.rng_for(uni);
